@@ -148,16 +148,16 @@ func (h *harness) replayLine(l string) bool {
 		}
 		h.writeOne(dataset{quads: qs, feat: map[string]bool{"replay": true}}, ch, nil, false)
 		return true
-	case f[0] == "jl.encode" && len(f) == 5:
-		qs, ok := parseWireGQuads(f[4])
+	case f[0] == "jl.encode" && len(f) == 6:
+		qs, ok := parseWireGQuads(f[5])
 		cfg, ok2 := parseEncCfg(f[1], f[2], f[3])
 		if !ok || !ok2 {
 			return false
 		}
 		h.encodeOne(dataset{quads: qs, feat: map[string]bool{"replay": true}}, cfg, true, "")
 		return true
-	case f[0] == "jl.cert" && len(f) == 7:
-		qs, ok := parseWireGQuads(f[6])
+	case f[0] == "jl.cert" && len(f) == 8:
+		qs, ok := parseWireGQuads(f[7])
 		cfg, ok2 := parseEncCfg(f[3], f[4], f[5])
 		if !ok || !ok2 {
 			return false
